@@ -5,6 +5,7 @@ import EduceModel.Props.C07
 import EduceModel.Props.C09
 import EduceModel.Props.C10
 import EduceModel.Props.C11
+import EduceModel.Props.C13
 import EduceModel.Props.C19
 import EduceModel.Expand
 /-!
@@ -22,8 +23,12 @@ generator (`WellFormed` in DESIGN.md), clause by clause:
   predicates (`Props.C11`), and the marker impl `Copy` that shares a header with `Clone` carries a
   `Copy` predicate for every field type also when a custom clone method removed the field from the
   `Clone` predicates (`copy_impl_covers_fields_with_method`, the repaired defect);
-* acceptance: the outcome model is tied to the implementation by the correspondence run of this
-  check (documented forms accepted, accepted forms compile under rustc without errors or warnings).
+* acceptance ("every documented form on a supported shape is accepted rather than refused"): for the eight
+  traits that need no designation below the type level, the parameter-free request is accepted on every struct
+  and non-empty enum, whatever its shape, field count, field types and generics (`expand_plain_accepted` and the
+  per-handler `*_plain_accepted`); for the other forms the outcome model is tied to the implementation by the
+  correspondence run of this check (documented forms accepted, accepted forms compile under rustc without
+  errors or warnings).
 -/
 namespace Educe.Props.C01
 open Educe Educe.Attr
@@ -104,5 +109,337 @@ example :
      | .ok [p, c] => p.trait == "Clone" && c.trait == "Copy" && p.head == ["false"] && p.preds.length == 0 && c.preds.length == 1
      | _ => false) = true := by
   decide
+
+/-! ## acceptance of the parameter-free requests -/
+
+def PlainBelow (d : DeriveInput) : Prop :=
+  ∀ v ∈ d.variants, v.attrs = [] ∧ ∀ f ∈ v.fields, f.attrs = []
+
+theorem isOk_bind {α β : Type} {r : Res α} {k : α → Res β} (h : IsOk r) (hk : ∀ a, IsOk (k a)) : IsOk (r >>= k) := by
+  obtain ⟨a, rfl⟩ := h; exact hk a
+
+theorem isOk_mapRes {α β : Type} (f : α → Res β) (l : List α) (h : ∀ x ∈ l, IsOk (f x)) : IsOk (mapRes f l) := by
+  induction l with
+  | nil => exact ⟨_, rfl⟩
+  | cons x xs ih =>
+    obtain ⟨y, hy⟩ := h x (by simp)
+    obtain ⟨ys, hys⟩ := ih (fun z hz => h z (by simp [hz]))
+    exact ⟨y :: ys, by simp [mapRes, hy, hys]⟩
+
+theorem variantNoAttr_nil (c : Ctx) (mine : TraitId → Bool) (v : Variant) (h : v.attrs = []) : variantNoAttr c mine v = .ok () := by
+  unfold variantNoAttr; rw [h]; rfl
+
+theorem clone_plain_accepted (c : Ctx) (m : TraitMeta) (hm : m.form = .path) (hp : PlainBelow c.d) :
+    IsOk (cloneHandler c m) := by
+  unfold cloneHandler
+  apply isOk_bind
+  · simp only [boundTypeFromMeta, hm]; exact ⟨_, rfl⟩
+  · intro ta
+    apply isOk_bind
+    · apply isOk_mapRes; intro v hv
+      obtain ⟨hva, hfs⟩ := hp v hv
+      have hf : ∀ (en : Bool), IsOk (mapRes (fun f => do
+          let a ← fromAttrs c.F c.traits (· == .clone) (cloneFieldFromMeta en) {} f.attrs
+          pure (f, a)) v.fields) := by
+        intro en; apply isOk_mapRes; intro f hf; rw [hfs f hf]; exact ⟨_, rfl⟩
+      simp only [variantNoAttr_nil c _ v hva]
+      split <;> first
+        | exact isOk_bind (hf _) (fun _ => ⟨_, rfl⟩)
+        | exact isOk_bind ⟨_, rfl⟩ (fun _ => isOk_bind (hf _) (fun _ => ⟨_, rfl⟩))
+    · intro vs; exact ⟨_, rfl⟩
+
+theorem eqLike_plain_accepted (c : Ctx) (m : TraitMeta) (me : TraitId) (mine : TraitId → Bool) (tp : String)
+    (comp : Option (TraitId × String)) (hm : m.form = .path) (hk : c.d.kind ≠ .union) (hp : PlainBelow c.d) :
+    IsOk (eqLikeHandler c m me mine tp comp) := by
+  have hfield : ∀ v ∈ c.d.variants, IsOk (mapRes (fun f => do
+      let a ← fromAttrs c.F c.traits mine (cmpFieldFromMeta { ignore := true, method := true, rank := false }) {} f.attrs
+      pure (f, a)) v.fields) := by
+    intro v hv; apply isOk_mapRes; intro f hf; rw [(hp v hv).2 f hf]; exact ⟨_, rfl⟩
+  have hta : IsOk (boundTypeFromMeta { flag := true, unsafe_ := false, bound := true } m) := by
+    simp only [boundTypeFromMeta, hm]; exact ⟨_, rfl⟩
+  unfold eqLikeHandler
+  cases hkind : c.d.kind with
+  | union => exact absurd hkind hk
+  | struct =>
+    simp only [hkind]
+    refine isOk_bind hta (fun ta => isOk_bind (isOk_mapRes _ _ (fun v hv => ?_)) (fun vs => ⟨_, rfl⟩))
+    exact isOk_bind (hfield v hv) (fun _ => ⟨_, rfl⟩)
+  | enum =>
+    simp only [hkind]
+    refine isOk_bind hta (fun ta => isOk_bind (isOk_mapRes _ _ (fun v hv => ?_)) (fun vs => ⟨_, rfl⟩))
+    simp only [variantNoAttr_nil c _ v (hp v hv).1]
+    exact isOk_bind ⟨_, rfl⟩ (fun _ => isOk_bind (hfield v hv) (fun _ => ⟨_, rfl⟩))
+
+theorem marker_plain_accepted (c : Ctx) (m : TraitMeta) (me p : TraitId) (b s : String) (w : Bool)
+    (hm : m.form = .path) (hp : PlainBelow c.d) : IsOk (markerHandler c m me p b s w) := by
+  unfold markerHandler
+  apply isOk_bind
+  · simp only [boundTypeFromMeta, hm]; exact ⟨_, rfl⟩
+  · intro ta
+    split
+    · exact ⟨_, rfl⟩
+    · apply isOk_bind
+      · apply isOk_mapRes; intro v hv
+        obtain ⟨hva, hfs⟩ := hp v hv
+        have hf : IsOk (mapRes (fun f => fromAttrs c.F c.traits (· == me) noFieldAttrFromMeta () f.attrs) v.fields) := by
+          apply isOk_mapRes; intro f hf; rw [hfs f hf]; exact ⟨_, rfl⟩
+        simp only [variantNoAttr_nil c _ v hva]
+        split <;> first
+          | exact isOk_bind hf (fun _ => ⟨_, rfl⟩)
+          | exact isOk_bind ⟨_, rfl⟩ (fun _ => isOk_bind hf (fun _ => ⟨_, rfl⟩))
+      · intro _; split <;> exact ⟨_, rfl⟩
+
+/-- Inserting a key above every key present succeeds. -/
+theorem insertRank_above (k : Int) (x : Field × CmpFieldAttr) (acc : List (Int × (Field × CmpFieldAttr)))
+    (h : ∀ p ∈ acc, p.1 < k) : insertRank k x acc = some (acc ++ [(k, x)]) := by
+  induction acc with
+  | nil => rfl
+  | cons p ps ih =>
+    obtain ⟨k', y⟩ := p
+    have hlt : k' < k := h (k', y) (by simp)
+    have h1 : ¬ k < k' := by omega
+    have h2 : ¬ k = k' := by omega
+    simp only [insertRank, h1, h2, if_false, ih (fun q hq => h q (by simp [hq])), Option.map, List.cons_append]
+
+/-- Fields that carry no attribute take the positional default ranks, which never collide. -/
+theorem rankLoop_plain (fas : List (Field × CmpFieldAttr)) (hplain : ∀ p ∈ fas, p.2 = {}) (i : Nat)
+    (acc : List (Int × (Field × CmpFieldAttr))) (hacc : ∀ p ∈ acc, p.1 < -9223372036854775808 + (i : Int)) :
+    (rankLoop i fas acc).isSome = true := by
+  induction fas generalizing i acc with
+  | nil => rfl
+  | cons p ps ih =>
+    obtain ⟨f, a⟩ := p
+    have ha : a = {} := hplain (f, a) (by simp)
+    subst ha
+    simp only [rankLoop, Bool.false_eq_true, if_false, Option.getD]
+    rw [insertRank_above _ _ acc hacc]
+    apply ih (fun q hq => hplain q (by simp [hq]))
+    intro q hq
+    simp only [List.mem_append, List.mem_singleton] at hq
+    rcases hq with hq | hq
+    · have := hacc q hq; push_cast; omega
+    · subst hq; push_cast; omega
+
+theorem mapRes_ok_map {α β : Type} (f : α → Res β) (g : α → β) (l : List α) (h : ∀ x ∈ l, f x = .ok (g x)) :
+    mapRes f l = .ok (l.map g) := by
+  induction l with
+  | nil => rfl
+  | cons x xs ih =>
+    simp only [mapRes, h x (by simp), ih (fun y hy => h y (by simp [hy])), List.map]
+
+theorem ok_bind_eq {α β : Type} (a : α) (f : α → Res β) : (Res.ok a >>= f) = f a := rfl
+
+theorem ordLike_plain_accepted (c : Ctx) (m : TraitMeta) (me : TraitId) (mine : TraitId → Bool) (tp : String)
+    (supers : List String) (comp : Bool) (hm : m.form = .path) (hk : c.d.kind ≠ .union)
+    (hrepr : ∀ a ∈ c.d.attrs, a.isRepr = false) (hp : PlainBelow c.d) :
+    IsOk (ordLikeHandler c m me mine tp supers comp) := by
+  have hfield : ∀ v ∈ c.d.variants, mapRes (fun f => do
+      let a ← fromAttrs c.F c.traits mine (cmpFieldFromMeta { ignore := true, method := true, rank := true }) {} f.attrs
+      pure (f, a)) v.fields = .ok (v.fields.map fun f => (f, ({} : CmpFieldAttr))) := by
+    intro v hv; apply mapRes_ok_map; intro f hf; rw [(hp v hv).2 f hf]; rfl
+  have hrank : ∀ v : Variant, ∃ r, rankLoop 0 (v.fields.map fun f => (f, ({} : CmpFieldAttr))) [] = some r := by
+    intro v
+    have := rankLoop_plain (v.fields.map fun f => (f, ({} : CmpFieldAttr))) (by simp) 0 [] (by simp)
+    exact Option.isSome_iff_exists.mp this
+  have hta : IsOk (boundTypeFromMeta { flag := true, unsafe_ := false, bound := true } m) := by
+    simp only [boundTypeFromMeta, hm]; exact ⟨_, rfl⟩
+  have hdisc : IsOk (discriminantType c.d) := by
+    unfold discriminantType
+    suffices h : ∀ (as : List Attribute) (acc : Option String), (∀ a ∈ as, a.isRepr = false) → IsOk (discriminantType.go ["i8", "i16", "i32", "i64", "i128", "isize", "u8", "u16", "u32", "u64", "u128", "usize"] as acc) from h _ _ hrepr
+    intro as
+    induction as with
+    | nil => intro acc _; exact ⟨_, rfl⟩
+    | cons a as ih =>
+      intro acc h
+      simp only [discriminantType.go, h a (by simp), Bool.false_and, Bool.false_eq_true, if_false]
+      exact ih acc (fun b hb => h b (by simp [hb]))
+  unfold ordLikeHandler
+  cases hkind : c.d.kind with
+  | union => exact absurd hkind hk
+  | struct =>
+    simp only [hkind]
+    refine isOk_bind hta (fun ta => isOk_bind ⟨_, rfl⟩ (fun dty => isOk_bind (isOk_mapRes _ _ (fun v hv => ?_)) (fun vs => ⟨_, rfl⟩)))
+    obtain ⟨r, hr⟩ := hrank v
+    simp only [hfield v hv, ok_bind_eq, hr, reduceCtorEq, beq_iff_eq, if_false]
+    exact ⟨_, rfl⟩
+  | enum =>
+    simp only [hkind]
+    refine isOk_bind hta (fun ta => isOk_bind hdisc (fun dty => isOk_bind (isOk_mapRes _ _ (fun v hv => ?_)) (fun vs => ⟨_, rfl⟩)))
+    obtain ⟨r, hr⟩ := hrank v
+    simp only [variantNoAttr_nil c _ v (hp v hv).1, hfield v hv, ok_bind_eq, hr, beq_self_eq_true, if_true]
+    exact ⟨_, rfl⟩
+
+theorem isOk_bind_eq {α β : Type} {r : Res α} {k : α → Res β} (h : IsOk r) (hk : ∀ a, r = .ok a → IsOk (k a)) : IsOk (r >>= k) := by
+  obtain ⟨a, rfl⟩ := h; exact hk a rfl
+
+theorem mapRes_length {α β : Type} (f : α → Res β) (l : List α) (ys : List β) (h : mapRes f l = .ok ys) : ys.length = l.length := by
+  induction l generalizing ys with
+  | nil => simp only [mapRes] at h; cases h; rfl
+  | cons x xs ih =>
+    simp only [mapRes] at h
+    split at h
+    · split at h
+      · rename_i zs hz; cases h; simp [ih zs hz]
+      · cases h
+      · cases h
+    · cases h
+    · cases h
+
+theorem debug_plain_accepted (c : Ctx) (m : TraitMeta) (hm : m.form = .path) (hk : c.d.kind ≠ .union)
+    (hne : c.d.kind = .enum → c.d.variants ≠ []) (hp : PlainBelow c.d) :
+    IsOk (debugHandler c m) := by
+  unfold debugHandler
+  cases hkind : c.d.kind with
+  | union => exact absurd hkind hk
+  | struct =>
+    simp only [hkind, debugTypeFromMeta, hm, if_true, ok_bind_eq]
+    have hfs : ∀ f ∈ (c.d.variants.headD {}).fields, f.attrs = [] := by
+      intro f hf
+      cases hvs : c.d.variants with
+      | nil => rw [hvs] at hf; simp at hf
+      | cons v vs => rw [hvs] at hf; exact (hp v (by rw [hvs]; simp)).2 f (by simpa using hf)
+    refine isOk_bind (isOk_mapRes _ _ (fun f hf => ?_)) (fun fas => ?_)
+    · rw [hfs f hf]; exact ⟨_, rfl⟩
+    · simp only [show ((NameCfg.default == NameCfg.disable) = false) from by decide, Bool.and_false, Bool.false_eq_true, if_false]
+      exact ⟨_, rfl⟩
+  | enum =>
+    simp only [hkind, debugTypeFromMeta, hm, if_true, ok_bind_eq]
+    refine isOk_bind_eq (isOk_mapRes _ _ (fun v hv => ?_)) (fun vs hvs0 => ?_)
+    · obtain ⟨hva, hfs⟩ := hp v hv
+      rw [hva]
+      have hnil : ∀ (b : TraitMeta → Res DebugTypeAttr) (dflt : DebugTypeAttr),
+          fromAttrs c.F c.traits (· == .debug) b dflt [] = .ok dflt := fun _ _ => rfl
+      have hname : (!(NameCfg.disable != NameCfg.disable || NameCfg.default != NameCfg.disable)) = false := by decide
+      simp only [hnil, ok_bind_eq, hname, Bool.and_false, Bool.false_eq_true, if_false]
+      have hf : IsOk (mapRes (fun f => do
+          let a ← fromAttrs c.F c.traits (· == .debug) (debugFieldFromMeta { name := v.shape == .named, ignore := true, method := true }) {} f.attrs
+          pure (f, a)) v.fields) := by
+        apply isOk_mapRes; intro f hf; rw [hfs f hf]; exact ⟨_, rfl⟩
+      split
+      · exact ⟨_, rfl⟩
+      · exact isOk_bind hf (fun _ => ⟨_, rfl⟩)
+    · have hvs : vs.isEmpty = false := by
+        have hl := mapRes_length _ _ _ hvs0
+        have := hne hkind
+        cases vs with
+        | nil => simp at hl; exact absurd (List.eq_nil_of_length_eq_zero hl.symm) this
+        | cons _ _ => rfl
+      simp only [hvs, Bool.false_and, Bool.false_eq_true, if_false]
+      exact ⟨_, rfl⟩
+
+/-- The traits whose bare form (`#[educe(Trait)]`) asks for no designation below the type level. -/
+def plainTrait : TraitId → Bool
+  | .debug | .clone | .copy | .partialEq | .eq | .partialOrd | .ord | .hash => true
+  | _ => false
+
+structure PlainRequest (c : Ctx) : Prop where
+  notUnion : c.d.kind ≠ .union
+  nonEmpty : c.d.kind = .enum → c.d.variants ≠ []
+  noRepr : ∀ a ∈ c.d.attrs, a.isRepr = false
+  below : PlainBelow c.d
+
+theorem handlerFor_plain_accepted (c : Ctx) (t : TraitId) (m : TraitMeta) (ms : List TraitMeta) (ht : plainTrait t = true)
+    (hm : m.form = .path) (H : PlainRequest c) : IsOk (handlerFor c t (m :: ms)) := by
+  unfold handlerFor
+  cases t <;> simp only [plainTrait] at ht <;> simp only []
+  · exact debug_plain_accepted c m hm H.notUnion H.nonEmpty H.below
+  · exact clone_plain_accepted c m hm H.below
+  · exact marker_plain_accepted c m _ _ _ _ _ hm H.below
+  · exact eqLike_plain_accepted c m _ _ _ _ hm H.notUnion H.below
+  · exact marker_plain_accepted c m _ _ _ _ _ hm H.below
+  · split
+    · apply isOk_bind
+      · simp only [boundTypeFromMeta, hm]; exact ⟨_, rfl⟩
+      · intro _; exact ⟨_, rfl⟩
+    · exact ordLike_plain_accepted c m _ _ _ _ _ hm H.notUnion H.noRepr H.below
+  · exact ordLike_plain_accepted c m _ _ _ _ _ hm H.notUnion H.noRepr H.below
+  · exact eqLike_plain_accepted c m _ _ _ _ hm H.notUnion H.below
+  all_goals exact absurd ht (by decide)
+
+/-- **Every parameter-free request for the eight traits that need no designation is accepted** on any struct or
+    non-empty enum without attributes below the type level, whatever its shape, field count and generics. -/
+theorem dispatch_plain_accepted (c : Ctx) (map : List (TraitId × List TraitMeta)) (H : PlainRequest c)
+    (hmap : ∀ p ∈ map, plainTrait p.1 = true ∧ ∃ m ms, p.2 = m :: ms ∧ m.form = .path) (ts : List TraitId) :
+    IsOk (dispatch c map ts) := by
+  induction ts with
+  | nil => exact ⟨_, rfl⟩
+  | cons t ts ih =>
+    simp only [dispatch]
+    split
+    · exact ih
+    · rename_i t' ms hfind
+      have hmem := List.mem_of_find?_eq_some hfind
+      have heq : t' = t := by have := List.find?_some hfind; simpa using this
+      obtain ⟨hpl, m, ms', hms, hform⟩ := hmap _ hmem
+      subst heq
+      simp only at hms hpl
+      subst hms
+      obtain ⟨items, hi⟩ := handlerFor_plain_accepted c t' m ms' hpl hform H
+      obtain ⟨rest, hr⟩ := ih
+      simp only [hi, hr]
+      exact ⟨_, rfl⟩
+
+def PlainEntry (p : TraitId × List TraitMeta) : Prop :=
+  plainTrait p.1 = true ∧ ∃ m ms, p.2 = m :: ms ∧ m.form = .path
+
+theorem collectTop_plain (F : Features) (ms : List TraitMeta) (acc : List (TraitId × List TraitMeta))
+    (hacc : ∀ p ∈ acc, PlainEntry p)
+    (hms : ∀ m ∈ ms, m.form = .path ∧ ∃ t, traitOf F m = some t ∧ plainTrait t = true)
+    (hnd : (acc.map (·.1) ++ ms.filterMap (traitOf F)).Nodup) :
+    ∃ acc', collectTop F ms acc = .ok acc' ∧ ∀ p ∈ acc', PlainEntry p := by
+  induction ms generalizing acc with
+  | nil => exact ⟨acc, rfl, hacc⟩
+  | cons m ms ih =>
+    obtain ⟨hform, t, ht, hpl⟩ := hms m (by simp)
+    have hnot : (acc.any fun p => p.1 == t) = false := by
+      rw [List.filterMap_cons, ht] at hnd
+      have hn := (List.nodup_append.mp hnd).2.2
+      rw [Bool.eq_false_iff]
+      intro hany
+      obtain ⟨p, hp, hpt⟩ := List.any_eq_true.mp hany
+      have hpt' : p.1 = t := by simpa using hpt
+      exact hn p.1 (List.mem_map.mpr ⟨p, hp, rfl⟩) t (by simp) hpt'
+    simp only [collectTop, ht, hnot, Bool.false_eq_true, if_false]
+    apply ih
+    · intro p hp
+      rcases List.mem_append.mp hp with hp | hp
+      · exact hacc p hp
+      · simp only [List.mem_singleton] at hp; subst hp; exact ⟨hpl, m, [], rfl, hform⟩
+    · intro m' hm'; exact hms m' (by simp [hm'])
+    · rw [List.filterMap_cons, ht] at hnd
+      simpa [List.map_append, List.append_assoc] using hnd
+
+/-- **Acceptance, end to end.** One `#[educe(..)]` attribute listing distinct bare traits among Debug, Clone, Copy,
+    PartialEq, Eq, PartialOrd, Ord, Hash on a struct or non-empty enum with nothing else attached: `expand`
+    returns impl items — or, only when the list is empty, the "not set up" diagnostic. No other refusal is
+    possible, for any shape, field count, field types and generics. -/
+theorem expand_plain_accepted (F : Features) (d : DeriveInput) (a : Attribute) (ms : List TraitMeta)
+    (hattrs : d.attrs = [a]) (hae : a.isEduce = true) (hal : a.isList = true) (har : a.isRepr = false) (hmetas : a.metas = some ms)
+    (hms : ∀ m ∈ ms, m.form = .path ∧ ∃ t, traitOf F m = some t ∧ plainTrait t = true)
+    (hnd : (ms.filterMap (traitOf F)).Nodup)
+    (hk : d.kind ≠ .union) (hne : d.kind = .enum → d.variants ≠ []) (hp : PlainBelow d) :
+    IsOk (expand F d) ∨ expand F d = .diag .notSetUp := by
+  obtain ⟨map, hmap, hentries⟩ := collectTop_plain F ms [] (by simp) hms (by simpa using hnd)
+  unfold expand
+  simp only [hattrs, collectTopAttrs, hae, hal, if_true, hmetas, hmap]
+  have H : PlainRequest { F := F, traits := fun t => map.any fun p => p.1 == t, d := d } :=
+    ⟨hk, hne, by intro b hb; rw [hattrs] at hb; simp at hb; subst hb; exact har, hp⟩
+  obtain ⟨items, hi⟩ := dispatch_plain_accepted _ map H hentries (TraitId.all.filter F.contains)
+  rw [hi]
+  cases items with
+  | nil => right; rfl
+  | cons x xs => left; exact ⟨_, rfl⟩
+
+/-- Non-vacuity: `#[educe(Debug, Clone, PartialEq, Eq, PartialOrd, Ord, Hash)] struct S<T> { a: u8, b: T }`
+    meets the hypotheses of `expand_plain_accepted`. -/
+example :
+    let mk (n : String) : TraitMeta := { ident := some n, pathStr := n, raw := n, form := .path }
+    let ms := ["Debug", "Clone", "PartialEq", "Eq", "PartialOrd", "Ord", "Hash"].map mk
+    let a : Attribute := { isEduce := true, isList := true, metas := some ms }
+    let d : DeriveInput := { name := "S", kind := .struct, generics := { params := [(.type, "T")] }, attrs := [a],
+                             variants := [{ shape := .named, fields := [{ name := some "a", ty := "u8" }, { name := some "b", ty := "T" }] }] }
+    d.attrs = [a] ∧ a.isEduce = true ∧ a.isList = true ∧ a.isRepr = false ∧ a.metas = some ms ∧
+      (ms.all fun m => m.form == .path && (match traitOf TraitId.all m with | some t => plainTrait t | none => false)) = true ∧
+      (ms.filterMap (traitOf TraitId.all)).length = 7 ∧ d.kind ≠ .union := by decide
 
 end Educe.Props.C01
